@@ -20,6 +20,7 @@ meta = {
         "how": "tools/seed_eval.py: scratch worktree of /repo HEAD under /tmp (removed afterwards): demo on unchanged tree, git apply, demo again, pytest suite; then git -C /repo apply, ./check <ids>, git -C /repo checkout -- .",
     },
     "checks_run": ev.get("checks"),
+    "checks_run_before_strengthening": ev.get("first_run_checks"),
     "detected_by": ev.get("detected_by"),
 }
 if len(sys.argv) > 4:
